@@ -391,8 +391,11 @@ func NewHTTP2Client(connectCtx, ctx context.Context, addr resolver.Address, opts
 		t.initialWindowSize = opts.InitialWindowSize
 	}
 	if !opts.StaticWindowSize {
+		// Start the estimate at the largest configured window: a BDP update must
+		// only ever grow the advertised windows, never shrink a configured one
+		// (which would also yield an illegal WINDOW_UPDATE increment).
 		t.bdpEst = &bdpEstimator{
-			bdp:               initialWindowSize,
+			bdp:               uint32(max(t.initialWindowSize, icwz)),
 			updateFlowControl: t.updateFlowControl,
 		}
 	}
